@@ -28,6 +28,7 @@ func Seq() int64 { return globalSeq.Add(1) }
 
 // Request is what a backend received on one connection.
 type Request struct {
+	Trailers [][2]string // trailer fields received after a chunked body
 	Seq              int64
 	Backend          string
 	Method           string
@@ -351,6 +352,10 @@ func readRequest(br *bufio.Reader) (*Request, error) {
 					t, err := br.ReadString('\n')
 					if err != nil || t == "\r\n" || t == "\n" {
 						break
+					}
+					t = strings.TrimRight(t, "\r\n")
+					if i := strings.IndexByte(t, ':'); i > 0 {
+						r.Trailers = append(r.Trailers, [2]string{t[:i], strings.TrimSpace(t[i+1:])})
 					}
 				}
 				break
